@@ -16,7 +16,7 @@ PROP = {
     "harness": "c17",
     "driver": "c17",
     "n_quick": 5000,
-    "n_thorough": 200000,
+    "n_thorough": 60000,
     "harness_args": harness_args,
     "harness_timeout": 1500,
     "trusted": [
